@@ -242,6 +242,7 @@ func Main(c Check) {
 	budget := fs.Int("budget", 0, "wall-clock budget in seconds (0 = tier default)")
 	verbose := fs.Bool("v", false, "verbose")
 	list := fs.Bool("list", false, "list units")
+	report := fs.String("report", "", "file the worker writes its unit reports to (internal)")
 	fs.Parse(os.Args[2:])
 	seed, _ := strconv.ParseInt(envOr("VERIF_SEED", "1"), 10, 64)
 	if *tier != "quick" && *tier != "thorough" {
@@ -283,7 +284,7 @@ func Main(c Check) {
 	if *worker != "" {
 		var k, w int
 		fmt.Sscanf(*worker, "%d/%d", &k, &w)
-		runWorker(c, units, *tier, seed, k, w, b, *verbose)
+		runWorker(c, units, *tier, seed, k, w, b, *verbose, *report)
 		return
 	}
 	os.Exit(coordinate(c, units, *tier, seed, *workers, b, *only, *verbose))
@@ -313,12 +314,22 @@ func runUnit(un Unit, u *U) (rep UnitReport) {
 	return u.rep
 }
 
-func runWorker(c Check, units []Unit, tier string, seed int64, k, w, budget int, verbose bool) {
+func runWorker(c Check, units []Unit, tier string, seed int64, k, w, budget int, verbose bool, report string) {
 	runtime.GOMAXPROCS(2)
 	vsched.StartWatchdog(60 * time.Second)
 	start := time.Now()
 	deadline := start.Add(time.Duration(budget) * time.Second)
-	enc := json.NewEncoder(os.Stdout)
+	out := os.Stdout
+	if report != "" {
+		f, err := os.Create(report)
+		if err != nil {
+			fmt.Fprintln(os.Stderr, "cannot create report file:", err)
+			os.Exit(2)
+		}
+		defer f.Close()
+		out = f
+	}
+	enc := json.NewEncoder(out)
 	// deal non-split units round-robin after sorting by cost (largest first)
 	type iu struct {
 		i int
@@ -386,7 +397,10 @@ func coordinate(c Check, units []Unit, tier string, seed int64, nw, budget int, 
 		wg.Add(1)
 		go func(k int) {
 			defer wg.Done()
-			args := []string{c.ID, "-tier", tier, "-worker", fmt.Sprintf("%d/%d", k, nw), "-budget", strconv.Itoa(budget)}
+			rp := filepath.Join(Root, ".build", "tmp", fmt.Sprintf("report-%s-%d-%d.jsonl", c.ID, os.Getpid(), k))
+			os.MkdirAll(filepath.Dir(rp), 0o755)
+			defer os.Remove(rp)
+			args := []string{c.ID, "-tier", tier, "-worker", fmt.Sprintf("%d/%d", k, nw), "-budget", strconv.Itoa(budget), "-report", rp}
 			if only != "" {
 				args = append(args, "-unit", only)
 			}
@@ -412,7 +426,8 @@ func coordinate(c Check, units []Unit, tier string, seed int64, nw, budget int, 
 			}
 			mu.Lock()
 			defer mu.Unlock()
-			dec := json.NewDecoder(&out)
+			rb, _ := os.ReadFile(rp)
+			dec := json.NewDecoder(bytes.NewReader(rb))
 			for {
 				var r UnitReport
 				if e := dec.Decode(&r); e != nil {
